@@ -1,4 +1,6 @@
 import DimodProofs.GenProofs
+import DimodProofs.MultComplete
+import DimodProofs.RandomGen
 
 /-! # C17 — problem generators encode exactly the relation they document
 
@@ -112,15 +114,185 @@ theorem gates_sum_zero_iff_all_satisfied (gs : List (GateKind × List Label))
   · intro h g hm; exact ((hg g hm).2.1).1 (h g hm)
   · intro h g hm; exact ((hg g hm).2.1).2 (h g hm)
 
-/-- `multiplication_circuit(n, m)`, PARTIAL: energy 0 ⇔ every AND / half-adder / full-adder of the wiring
-    is satisfied, ≥ 1 otherwise — proved for all sizes.  That the satisfied wirings are exactly
-    `a·b = p` is checked by enumeration up to 3×3 bits (a test), and is *false* when an argument has
-    one bit (D36: the product bits are not named `p1, …`). -/
+/-- `multiplication_circuit(n, m)`, gate level: energy 0 ⇔ every AND / half-adder / full-adder of the wiring
+    is satisfied, ≥ 1 otherwise — for all sizes.  That the satisfied wirings are exactly `a·b = p` is
+    `multiplication_circuit_zero_iff_product` below (all `n, m ≥ 2`); it is *false* when an argument has one
+    bit (D36: the product bits are not named `p1, …`). -/
 theorem multiplication_circuit_partial (n m : Nat) (gs : List (GateKind × List Label)) (h : mulCircuit n m = some gs)
     (x : Label → Rat) (hx : ∀ v, x v ∈ [(0 : Rat), 1]) :
     (evalBag x (circuitBag gs) = 0 ↔ ∀ g ∈ gs, g.1.rel (g.2.map x) = true)
     ∧ (evalBag x (circuitBag gs) ≠ 0 → 1 ≤ evalBag x (circuitBag gs)) :=
   gates_sum_zero_iff_all_satisfied gs (mulCircuit_lengths n m gs h) x hx
+
+/-- **the array multiplies (all `n, m ≥ 2`)**: at a 0/1 sample of energy 0 the product bits `p0 … p(n+m-1)`
+    encode the product of the numbers on `a0 … a(n-1)` and `b0 … b(m-1)`; at every 0/1 sample whose product
+    bits are *not* that product the energy is at least 1 — whatever the internal wires are -/
+theorem multiplication_circuit_sound (n m : Nat) (hn : 2 ≤ n) (hm : 2 ≤ m) (gs : List (GateKind × List Label))
+    (h : mulCircuit n m = some gs) (x : Label → Rat) (hx : ∀ v, x v ∈ [(0 : Rat), 1]) :
+    (evalBag x (circuitBag gs) = 0 → pVal x (n + m) = aVal x n * bVal x m)
+    ∧ (pVal x (n + m) ≠ aVal x n * bVal x m → 1 ≤ evalBag x (circuitBag gs)) := by
+  obtain ⟨h1, h2⟩ := multiplication_circuit_partial n m gs h x hx
+  have hs : evalBag x (circuitBag gs) = 0 → pVal x (n + m) = aVal x n * bVal x m :=
+    fun h0 => mulCircuit_sound n m hn hm gs h x (h1.1 h0)
+  exact ⟨hs, fun hne => h2 (fun h0 => hne (hs h0))⟩
+
+/-- **and every product is reachable**: for all operand bits there is a 0/1 sample carrying them with
+    energy 0 (so its product bits encode `a·b`) -/
+theorem multiplication_circuit_complete (n m : Nat) (hn : 2 ≤ n) (hm : 2 ≤ m) (gs : List (GateKind × List Label))
+    (h : mulCircuit n m = some gs) (A B : Nat → Rat) (hA : ∀ i, A i ∈ [(0 : Rat), 1]) (hB : ∀ j, B j ∈ [(0 : Rat), 1]) :
+    ∃ x : Label → Rat, (∀ l, x l ∈ [(0 : Rat), 1]) ∧ (∀ i, x (aLabel i) = A i) ∧ (∀ j, x (bLabel j) = B j)
+      ∧ evalBag x (circuitBag gs) = 0 ∧ pVal x (n + m) = wsum A n * wsum B m := by
+  obtain ⟨x, hx, ha, hb, hsat⟩ := mulCircuit_complete n m hn hm gs h A B hA hB
+  have h0 : evalBag x (circuitBag gs) = 0 := (multiplication_circuit_partial n m gs h x hx).1.2 hsat
+  refine ⟨x, hx, ha, hb, h0, ?_⟩
+  rw [mulCircuit_sound n m hn hm gs h x hsat]
+  unfold aVal bVal
+  rw [wsum_congr _ A n (fun i _ => ha i), wsum_congr _ B m (fun j _ => hb j)]
+
+/-- **`multiplication_circuit(n, m)`, all `n, m ≥ 2`: energy 0 ⇔ `p = a·b`, minimised over the internal
+    wires.**  Fix the values of the operand and product variables (those of `x₀`).  Some 0/1 assignment of
+    the remaining (internal) variables has energy 0 iff the product bits encode the product of the operands;
+    otherwise every assignment of the internal variables has energy ≥ 1. -/
+theorem multiplication_circuit_zero_iff_product (n m : Nat) (hn : 2 ≤ n) (hm : 2 ≤ m) (gs : List (GateKind × List Label))
+    (h : mulCircuit n m = some gs) (x₀ : Label → Rat) (hx₀ : ∀ v, x₀ v ∈ [(0 : Rat), 1]) :
+    let Agree (x : Label → Rat) : Prop :=
+      (∀ i, i < n → x (aLabel i) = x₀ (aLabel i)) ∧ (∀ j, j < m → x (bLabel j) = x₀ (bLabel j))
+      ∧ (∀ k, k < n + m → x (pLabel k) = x₀ (pLabel k))
+    ((∃ x, (∀ v, x v ∈ [(0 : Rat), 1]) ∧ Agree x ∧ evalBag x (circuitBag gs) = 0)
+        ↔ pVal x₀ (n + m) = aVal x₀ n * bVal x₀ m)
+    ∧ (pVal x₀ (n + m) ≠ aVal x₀ n * bVal x₀ m →
+        ∀ x, (∀ v, x v ∈ [(0 : Rat), 1]) → Agree x → 1 ≤ evalBag x (circuitBag gs)) := by
+  intro Agree
+  have transfer : ∀ x, Agree x → (pVal x (n + m) = pVal x₀ (n + m) ∧ aVal x n = aVal x₀ n ∧ bVal x m = bVal x₀ m) := by
+    intro x hag
+    exact ⟨wsum_congr _ _ _ hag.2.2, wsum_congr _ _ _ hag.1, wsum_congr _ _ _ hag.2.1⟩
+  refine ⟨⟨?_, ?_⟩, ?_⟩
+  · rintro ⟨x, hx, hag, h0⟩
+    obtain ⟨e1, e2, e3⟩ := transfer x hag
+    rw [← e1, ← e2, ← e3]
+    exact (multiplication_circuit_sound n m hn hm gs h x hx).1 h0
+  · intro hprod
+    obtain ⟨x, hx, ha, hb, h0, hp⟩ := multiplication_circuit_complete n m hn hm gs h
+      (fun i => x₀ (aLabel i)) (fun j => x₀ (bLabel j)) (fun i => hx₀ _) (fun j => hx₀ _)
+    refine ⟨x, hx, ⟨fun i _ => ha i, fun j _ => hb j, ?_⟩, h0⟩
+    have : wsum (fun k => x (pLabel k)) (n + m) = wsum (fun k => x₀ (pLabel k)) (n + m) := by
+      have h2 := hprod
+      unfold pVal aVal bVal at h2
+      unfold pVal at hp
+      rw [hp, h2]
+    exact wsum_inj _ _ _ (fun k _ => hx _) (fun k _ => hx₀ _) this
+  · intro hne x hx hag
+    obtain ⟨e1, e2, e3⟩ := transfer x hag
+    exact (multiplication_circuit_sound n m hn hm gs h x hx).2 (by rw [e1, e2, e3]; exact hne)
+
+/-! ## random generators: the deterministic post-processing of an explicit draw stream
+
+`DimodModel/RandomGen.lean` (namespace `Rnd`): the NumPy generator is a contract — a stream `σ` of the scalars
+it returns, in consumption order (recorded by the harness and handed to the models) — and everything dimod
+does with the draws is modelled as coded. -/
+
+open Rnd in
+/-- `uniform` / `randint`: **biases only on the declared graph** — the linear calls are exactly the node list,
+    the quadratic calls exactly the edge list, in order -/
+theorem random_graph_biases_on_declared_graph (vars : List Label) (edges : List (Label × Label)) (σ : Stream) :
+    (∀ t ∈ (graphGen vars edges σ).1, OnGraph vars edges t)
+    ∧ ((graphGen vars edges σ).1.filterMap (fun t => match t with | .lin v _ => some v | _ => none)) = vars
+    ∧ ((graphGen vars edges σ).1.filterMap (fun t => match t with | .quad u v _ => some (u, v) | _ => none)) = edges :=
+  graphGen_on_graph vars edges σ
+
+open Rnd in
+/-- `uniform` / `randint`: **each bias is one of the consumed draws, hence in the declared range when the draws are** -/
+theorem random_graph_biases_in_range (vars : List Label) (edges : List (Label × Label)) (σ : Stream) (lo hi : Rat)
+    (hσ : ∀ i, i < (graphGen vars edges σ).2 → lo ≤ σ i ∧ σ i ≤ hi) :
+    ∀ t ∈ (graphGen vars edges σ).1, lo ≤ coef t ∧ coef t ≤ hi := graphGen_in_range vars edges σ lo hi hσ
+
+open Rnd in
+/-- `uniform` / `randint`: **same stream ⇒ same model** (only `len(variables) + len(edges) + 1` scalars matter) -/
+theorem random_graph_same_stream (vars : List Label) (edges : List (Label × Label)) (σ τ : Stream)
+    (h : ∀ i, i < vars.length + edges.length + 1 → σ i = τ i) : graphGen vars edges σ = graphGen vars edges τ :=
+  graphGen_same_stream vars edges σ τ h
+
+open Rnd in
+/-- `ran_r` / `power_r`: on the declared graph, linear biases and offset 0, interactions integers of
+    `{-r, …, -1, 1, …, r}` given index draws `< 2r`; refused exactly for `r < 1` -/
+theorem ran_r_spec (r : Nat) (vars : List Label) (edges : List (Label × Label)) (σ : Stream)
+    (bag : List (PTerm Label)) (k : Nat) (h : ranR r vars edges σ = some (bag, k))
+    (hσ : ∀ i, i < edges.length → idxOf (σ i) < 2 * r) :
+    k = edges.length ∧ 1 ≤ r
+    ∧ (∀ t ∈ bag, OnGraph vars edges t)
+    ∧ (∀ t ∈ bag, match t with
+        | .const c => c = 0
+        | .lin _ c => c = 0
+        | .quad _ _ c => ∃ z : Int, c = (z : Rat) ∧ 1 ≤ z.natAbs ∧ z.natAbs ≤ r) :=
+  ranR_spec r vars edges σ bag k h hσ
+
+open Rnd in
+theorem ran_r_same_stream (r : Nat) (vars : List Label) (edges : List (Label × Label)) (σ τ : Stream)
+    (h : ∀ i, i < edges.length → σ i = τ i) : ranR r vars edges σ = ranR r vars edges τ := ranR_same_stream r vars edges σ τ h
+
+open Rnd in
+/-- `doped`: variables = ends of the edges with linear bias 0, every interaction `±1`, one draw per edge -/
+theorem doped_spec (edges : List (Label × Label)) (σ : Stream) :
+    (doped edges σ).2 = edges.length
+    ∧ ∀ t ∈ (doped edges σ).1, match t with
+        | .const _ => False
+        | .lin v c => c = 0 ∧ ∃ e ∈ edges, v = e.1 ∨ v = e.2
+        | .quad u v c => (u, v) ∈ edges ∧ (c = 1 ∨ c = -1) := Rnd.doped_spec edges σ
+
+open Rnd in
+theorem doped_same_stream (edges : List (Label × Label)) (σ τ : Stream) (h : ∀ i, i < edges.length → σ i = τ i) :
+    doped edges σ = doped edges τ := Rnd.doped_same_stream edges σ τ h
+
+open Rnd in
+/-- `gnm_random_bqm`: **exactly `min(num_interactions, n(n−1)/2)` interactions**, each between positions
+    `ui < vi < n`, a sub-list of the row-ordered pairs (so pairwise different), for every stream within the
+    `randint` contract -/
+theorem gnm_selects_exactly (n numInter : Nat) (σ : Stream)
+    (hσ : ∀ j, j < n * (n - 1) / 2 → σ (n + min (n * (n - 1) / 2) numInter + j) < (((n * (n - 1) / 2 - j : Nat)) : Rat)) :
+    let m := min (n * (n - 1) / 2) numInter
+    let sel := if m = 0 then (([] : List (Nat × Nat)), n + m) else gnmLoop m σ (pairsRow n) 0 (n + m)
+    sel.1.length = m ∧ sel.1.Sublist (pairsRow n) ∧ (∀ p ∈ sel.1, p.1 < p.2 ∧ p.2 < n) :=
+  Rnd.gnm_selects_exactly n numInter σ hσ
+
+open Rnd in
+/-- `gnm_random_bqm`: **every set of `m` pairs is reachable** by draws within the `randint` contract — the
+    interactions really depend on the stream (this is what D39 violated) -/
+theorem gnm_every_pair_set_reachable (m : Nat) (pairs T : List (Nat × Nat)) (hT : T.Sublist pairs) (k : Nat) (hk : k < m)
+    (hlen : T.length = m - k) :
+    ∃ d : List Nat, d.length = pairs.length ∧ (∀ j, j < pairs.length → d.getD j 0 < pairs.length - j)
+      ∧ ∀ (σ : Stream) (pos : Nat), (∀ j, j < pairs.length → σ (pos + j) = ((d.getD j 0 : Nat) : Rat)) →
+          (gnmLoop m σ pairs k pos).1 = T := gnmLoop_reachable m pairs T hT k hk hlen
+
+open Rnd in
+theorem gnm_same_stream (labels : List Label) (numInter : Nat) (σ τ : Stream)
+    (h : ∀ i, i < (gnm labels numInter σ).2 → σ i = τ i) : gnm labels numInter σ = gnm labels numInter τ :=
+  Rnd.gnm_same_stream labels numInter σ τ h
+
+open Rnd in
+/-- `gnp_random_bqm`: pairs are `v < w < n`; none when no draw is `< p` (`p = 0`); all when every draw is `< p`
+    (`p = 1`); same stream ⇒ same pairs -/
+theorem gnp_pairs (n : Nat) (p : Rat) (σ : Stream) :
+    (∀ e ∈ gnpRows n p σ n 0, e.1 < e.2 ∧ e.2 < n)
+    ∧ ((∀ i, ¬ σ i < p) → gnpRows n p σ n 0 = [])
+    ∧ ((∀ i, σ i < p) → ∀ e, e ∈ gnpRows n p σ n 0 ↔ (e.1 < e.2 ∧ e.2 < n))
+    ∧ (∀ τ : Stream, (∀ i, i < n * n → σ i = τ i) → gnpRows n p σ n 0 = gnpRows n p τ n 0) := by
+  refine ⟨fun e he => (gnpRows_mem n p σ n 0 (Nat.le_refl _) e he).2, fun h => gnpRows_none n p σ h n 0, ?_, ?_⟩
+  · intro h e
+    rw [gnpRows_all n p σ h n 0 (Nat.le_refl _) e]
+    simp
+  · intro τ h
+    exact gnpRows_congr n p σ τ n 0 (Nat.le_refl _) (fun i _ hi => h i (by simpa using hi))
+
+open Rnd in
+/-- the random knapsacks: the data are the draws (value `σ i`, weight `σ (n+i)`, for `random_multi_knapsack` the
+    capacities `σ (2n+j)`), `random_knapsack`'s capacity is `⌊Σ weights · ratio⌋`; same stream ⇒ same model -/
+theorem random_knapsacks_spec (n bins : Nat) (ratio cap : Rat) (σ τ : Stream) :
+    (randomKnapsack n ratio σ).1
+        = knapsack (takeS σ 0 n) (takeS σ n n) ((((takeS σ n n).foldl (· + ·) 0 * ratio).floor : Int) : Rat)
+    ∧ ((∀ i, i < 2 * n → σ i = τ i) → randomKnapsack n ratio σ = randomKnapsack n ratio τ)
+    ∧ ((∀ i, i < 2 * n + bins → σ i = τ i) → randomMultiKnapsack n bins σ = randomMultiKnapsack n bins τ)
+    ∧ ((∀ i, i < n → σ i = τ i) → randomBinPacking n cap σ = randomBinPacking n cap τ) :=
+  ⟨rfl, randomKnapsack_same_stream n ratio σ τ, randomMultiKnapsack_same_stream n bins σ τ, randomBinPacking_same_stream n cap σ τ⟩
 
 /-! ## combinations(n, k): `strength·(Σx − k)²` for every n, k -/
 
